@@ -338,6 +338,25 @@ def run(ctx):
             if bad:
                 ctx.violation(dict(kind='crafted-version-string', ext=ext, version_string=vs, events=bad[:6],
                                    how='a replay whose open block carries that version string; audit events during ReplayParser(file).get_info()'))
+        # (3') the same texts inside the STREAM: the wows stream carries a Version record of its own; whatever it says, it names no directory - the header
+        # selected the definitions. Planted directories are laid out so that every way of turning the text into a path finds definitions there
+        plant = os.path.join(tmp, 'plant')
+        for nm in ('0_9_4_1', '0_9_4', '0_8_0_1', '0_8_0'): shutil.copytree(src, os.path.join(plant, nm, 'scripts'))
+        texts = [plant + '/0,9,4,1', plant + '/0, 9, 4, 1', plant + '/0,8,0,1', evil + ',9,4,1', '0,9,4,/' + evil, '../../../../../../../..' + plant + '/0,9,4,1', plant.replace('/', ',')]
+        for v_ in ('13_2_0', '0_10_0'):
+            if v_ not in battle.wows_versions(): continue
+            for t_ in texts:
+                sb, svs = battle.build_wows(v_, random.Random(12))
+                if 'Version' not in sb.ids: break
+                tb_ = t_.encode(); rec = battle.synth.frame(sb.ids['Version'], 0, struct.pack('<i', len(tb_)) + tb_)
+                p = os.path.join(tmp, 'instream.wowsreplay'); battle.write_replay(p, 'wowsreplay', {'clientVersionFromXml': svs}, rec + sb.stream() + rec)
+                out, ev, marks = audited_parse(p)
+                ctx.case(('in-stream-version', v_, t_)); ctx.count('crafted:in-stream-version')
+                bad = judge(p, ev, [bundled])
+                if bad:
+                    ctx.violation(dict(kind='crafted-version-string', ext='wowsreplay', where='the Version record INSIDE the packet stream (the header names %s)' % svs, version_string=t_, events=bad[:6],
+                                       how='a synthetic %s battle whose stream starts and ends with a Version record carrying that text; audit events during ReplayParser(file).get_info(): only the replay and the bundle may be opened' % v_))
+                    break
     finally:
         shutil.rmtree(tmp, ignore_errors=True)
     # every process started while this check ran: the harness starts its own tools (the extracted model, coqc, the shell around them, the interpreter);
